@@ -14,7 +14,7 @@ from tornado.netutil import SSLCertificateError
 from typing import Optional, Union
 from wpull.backport.logging import BraceMessage as __
 from wpull.errors import NetworkError, ConnectionRefused, SSLVerificationError, \
-    NetworkTimedOut
+    NetworkTimedOut, ProtocolError
 
 _logger = logging.getLogger(__name__)
 
@@ -264,12 +264,18 @@ class BaseConnection(object):
         assert self._state == ConnectionState.created, \
             'Expect conn created. Got {}.'.format(self._state)
 
-        with self._close_timer.with_timeout():
-            data = yield from \
-                self.run_network_operation(
-                    self.reader.readline(),
-                    close_timeout=self._timeout,
-                    name='Readline')
+        try:
+            with self._close_timer.with_timeout():
+                data = yield from \
+                    self.run_network_operation(
+                        self.reader.readline(),
+                        close_timeout=self._timeout,
+                        name='Readline')
+        except ValueError as error:
+            # StreamReader.readline: the line is longer than the buffer limit
+            self.close()
+            raise ProtocolError(
+                'Readline error: {error}'.format(error=error)) from error
 
         return data
 
